@@ -237,12 +237,10 @@ def check_free(case):
             mode = m or auto_mode(b)
             if mode == 'INVALID' or not representable(mode, b) and len(b):
                 return Outcome((), labels, False, True)
-            hdr = False
-            if eci and mode == 'byte':
-                try:
-                    hdr = gens_codec(enc) != 'iso8859-1'
-                except LookupError:
-                    return Outcome((), labels, False, True)
+            # whether an ECI header is written cannot be observed on a refusal; assume one for every
+            # byte part when eci is requested (upper bound, so a refusal is only questioned when the
+            # content fits even then)
+            hdr = bool(eci and mode == 'byte')
             segs.append((mode, len(b), hdr))
         if not segs or (fn == 'make_micro' and (eci or lvl == 'H')) or (micro is True and eci):
             return Outcome((), labels, False, True)
